@@ -492,6 +492,11 @@ private:"""),
          old="gW.array() += m_l2reg * W.array() / W.size();", new="gW.array() += m_l2reg * W.array() / W.cols();"),
     dict(property="C09", name="linear-predict-without-bias", rule="R-C09-8", file="src/linear/util.cpp",
          old="    outputs.reshape(samples, tsize).matrix().rowwise() += bias.vector().transpose();", new="    static_cast<void>(bias);"),
+    dict(property="C08", name="sample-guard-unsigned-maximum-only", rule="R-C08-1", file="src/dataset.cpp",
+         old="    critical(samples.min() < 0 || samples.max() >= m_datasource.samples(),",
+         new="    critical(static_cast<size_t>(samples.max()) >= static_cast<size_t>(m_datasource.samples()),"),
+    dict(property="C08", name="feature-guard-upper-end-only", rule="R-C08-1", file="src/dataset.cpp",
+         old="    critical(feature < 0 || feature >= features(),", new="    critical(feature >= features(),"),
     dict(property="C14", name="make-scaling-skipped-for-small-range", rule="R-C14-8", file="src/dataset/stats.cpp",
          old="    if (stats.m_min.size() > 0)\n    {\n        switch (scaling)", new="    if (stats.m_min.size() > 0 && stats.m_div_range.max() < 1e+6)\n    {\n        switch (scaling)"),
     dict(property="C14", name="make-scaling-early-return-without-samples", rule="R-C14-8", file="src/dataset/stats.cpp",
@@ -1348,6 +1353,8 @@ BENIGN = [
          old="""                const auto op = [](scalar_t threshold, scalar_t value) { return value >= threshold; };
                 const auto it = std::upper_bound(begin, end, m_thresholds(bin), op);""",
          new="""                const auto it = std::lower_bound(begin, end, m_thresholds(bin));"""),
+    dict(property="C08", name="feature-guard-single-unsigned-comparison", file="src/dataset.cpp",
+         old="    critical(feature < 0 || feature >= features(),", new="    critical(static_cast<size_t>(feature) >= static_cast<size_t>(features()),"),
     dict(property="C14", name="make-scaling-guard-on-other-member", file="src/dataset/stats.cpp",
          old="    if (stats.m_min.size() > 0)\n    {\n        switch (scaling)", new="    if (0 != stats.m_samples.size())\n    {\n        switch (scaling)"),
     dict(property="C14", name="scale-mean-reassociated", file="src/dataset/stats.cpp",
